@@ -433,6 +433,10 @@ func (sp *StakePool) DistributeRewardsRandN(
 	if err != nil {
 		return err
 	}
+	if serviceCharge > value {
+		// float64(value) can round up for value > 2^53
+		serviceCharge = value
+	}
 	if serviceCharge > 0 {
 		reward := serviceCharge
 		sr, err := currency.AddCoin(sp.Reward, reward)
@@ -458,6 +462,13 @@ func (sp *StakePool) DistributeRewardsRandN(
 	}
 
 	if stake == 0 {
+		// nobody to share with: the remainder goes to the provider, as when there are no pools
+		sr, err := currency.AddCoin(sp.Reward, valueLeft)
+		if err != nil {
+			return err
+		}
+		sp.Reward = sr
+		spUpdate.Reward += valueLeft
 		if err := spUpdate.Emit(event.TagStakePoolReward, balances); err != nil {
 			return err
 		}
@@ -613,6 +624,10 @@ func (sp *StakePool) DistributeRewards(
 	serviceCharge, err := currency.Float64ToCoin(sp.Settings.ServiceChargeRatio * fValue)
 	if err != nil {
 		return err
+	}
+	if serviceCharge > value {
+		// float64(value) can round up for value > 2^53
+		serviceCharge = value
 	}
 	if serviceCharge > 0 {
 		reward := serviceCharge
